@@ -35,8 +35,10 @@ def gen_case(rng, tier="quick"):
                  [5, 3, 2, 3])
     d = _pick(rng, [2, 3, 4], [3, 2, 1])
     m = {"kind": kind, "d": d,
-         "temperature": _r(rng, 0.4, 3.0),
-         "n_steps": rng.randrange(2, 9),
+         "temperature": _r(rng, 0.4, 3.0) if rng.random() < 0.8
+         else _pick(rng, [0.15, 0.25, 4.0, 6.0]),
+         "n_steps": rng.randrange(2, 9) if rng.random() < 0.85
+         else rng.randrange(9, 41),
          "epsrel": _pick(rng, [1e-9, 1e-10]),
          "zeta": _pick(rng, [1.0, 2.0, 3.0]),
          "cutoff": _r(rng, 1.0, 4.0),
@@ -137,6 +139,10 @@ def hamiltonian(m):
             h = u @ h @ u.conj().T
         return h
     if m.get("complex"):
+        if m["hseed"] % 4 == 0:
+            # purely imaginary couplings (sigma_y like) on a real diagonal
+            b = rng.normal(size=(d, d))
+            return np.diag(np.diag(a)) + 1j * (b - b.T) / 2
         a = a + 1j * rng.normal(size=(d, d))
     return (a + a.conj().T) / 2
 
